@@ -1,1 +1,3 @@
 import Model.Alg
+import Model.Codec
+import Model.Transcript
